@@ -1,7 +1,7 @@
 (* Wf_proof.v -- invariants of every state reached by a program (induction over the
    list of constructor calls). *)
 From Coq Require Import ZArith List Bool Lia ZifyBool.
-From PS.model Require Import Smt Enc Prog.
+From PS.model Require Import Smt Enc Ind Prog.
 From PS.spec Require Import Spec.
 From PS.proofs Require Import Base Cons_proof Res_proof.
 Import ListNotations.
@@ -64,6 +64,11 @@ Ltac break H := repeat match type of H with
   | context [match ?x with _ => _ end] => destruct x eqn:?; try discriminate
   end.
 
+Lemma wf_with_ext st x : wf st -> wf (with_ext st x).
+Proof. intros [[H1 H2] H3]. split; [split|]; cbn; auto. Qed.
+Lemma add_indicator_wf st id key given b e st' : wf st -> add_indicator st id key given b e = Some st' -> wf st'.
+Proof. unfold add_indicator. intros Hw H. break H. injection H as <-. now apply wf_with_ext. Qed.
+
 Lemma step_wf st o st' : wf st -> step_problem st o = Ok st' -> wf st'.
 Proof.
   intros [Hneg Hrank] H. destruct o; cbn [step_problem] in H.
@@ -88,6 +93,10 @@ Proof.
     + (* user selection *) split; [now apply add_select_neg_ok|].
       intros t' Hin. unfold add_select in Hin. destruct (fold_left _ _ _) as [[? ?] ?]. cbn [ps_tasks] in Hin. auto.
   - (* constraint *) break H. injection H as <-. split; [destruct Hneg; split; cbn; auto|exact Hrank].
+  - (* buffer *) break H. injection H as <-. apply wf_with_ext. split; assumption.
+  - (* indicator *) break H. injection H as <-. eapply add_indicator_wf; [|eassumption]. split; assumption.
+  - (* objective *) break H; injection H as <-; apply wf_with_ext;
+      first [split; assumption | eapply add_indicator_wf; [|eassumption]; split; assumption].
 Qed.
 
 Lemma run_from_wf ops : forall st idx st',
